@@ -273,3 +273,61 @@ pub fn reflect(reply: &[u8]) -> Option<Vec<u8>> {
         _ => None,
     }
 }
+
+/// An ICMP error about one of the node's own replies, as the peer or a router on the way would
+/// send it: it quotes the reply's IP header and the first bytes behind it (8, or as much as fits).
+/// ICMP errors are reply-marked messages of no concern to the responder: they must change nothing.
+pub fn icmp_error_for(reply: &[u8], rng: &mut Rng) -> Option<Vec<u8>> {
+    let p = parse(reply);
+    let e = p.eth.as_ref()?;
+    let node_ip = p.ip_src()?;
+    let peer_ip = p.ip_dst()?;
+    match (&p.l3, &node_ip, &peer_ip) {
+        (L3::V4(h), IpAddr::V4(_), IpAddr::V4(_)) => {
+            if !matches!(p.l4, L4::Tcp(_) | L4::Udp(_) | L4::Icmp4(_)) {
+                return None;
+            }
+            let ip_hdr_end = h.pay_off;
+            let quote_end = if rng.chance(2, 3) { (ip_hdr_end + 8).min(reply.len()) } else { reply.len().min(14 + 548) };
+            let mut rest = vec![0u8; 4];
+            rest.extend_from_slice(&reply[14..quote_end]);
+            let (ty, code) = match rng.below(6) {
+                0 => (3u8, 3u8),  // port unreachable
+                1 => (3, 2),      // protocol unreachable
+                2 => (3, rng.below(16) as u8),
+                3 => (11, rng.below(2) as u8),
+                4 => (12, 0),
+                _ => (*rng.pick(&[4u8, 5, 3]), rng.below(4) as u8),
+            };
+            if ty == 3 && code == 4 {
+                rest[2] = 0x05;
+                rest[3] = 0x78; // next-hop MTU 1400
+            }
+            let seg = icmp4(ty, code, &rest);
+            Some(frame_ip(&e.src, &e.dst, &peer_ip, &node_ip, P_ICMP, &seg, 64))
+        }
+        (L3::V6(h), IpAddr::V6(ps), IpAddr::V6(pd)) => {
+            if !matches!(p.l4, L4::Tcp(_) | L4::Udp(_) | L4::Icmp6(_)) {
+                return None;
+            }
+            let _ = h;
+            let quote_end = reply.len().min(14 + 1232);
+            let mut rest = vec![0u8; 4];
+            rest.extend_from_slice(&reply[14..quote_end]);
+            let (ty, code) = match rng.below(4) {
+                0 => (1u8, 4u8), // port unreachable
+                1 => (1, rng.below(7) as u8),
+                2 => (3, 0),
+                _ => (*rng.pick(&[2u8, 4]), 0),
+            };
+            if ty == 2 {
+                rest[2] = 0x05;
+                rest[3] = 0x00;
+            }
+            // the error travels from the reply's destination (the peer) to its source (the node)
+            let seg = icmp6(ty, code, &rest, pd, ps);
+            Some(frame_ip(&e.src, &e.dst, &peer_ip, &node_ip, P_ICMP6, &seg, 64))
+        }
+        _ => None,
+    }
+}
